@@ -269,3 +269,104 @@ def close_step_reach(which: int, nctx: int, disabled: bool) -> bool:
     del TAGS[:]
     r = _close_step(which, nctx, disabled)
     return not ('closed' in TAGS and r is None)
+
+
+# ---------------------------------------------------------------------------------------
+# H2 client step: the real WBEMConnection._get_rslt_params / _validate_context /
+# _validate_MaxObjectCount_OpenPull on an arbitrary open/pull reply (client half of the
+# session: eos / context / objects are handed to the caller exactly as the server sent them).
+import pywbem._cim_operations as co
+
+co._format = lambda *a, **k: 'msg'     # stub: message formatting (not the subject)
+EOS_TEXT = ['true', 'TRUE', 'True', 'tRuE', 'false', 'FALSE', 'False', 'fAlSe']
+ORDERS = [(0, 1, 2), (0, 2, 1), (1, 0, 2), (1, 2, 0), (2, 0, 1), (2, 1, 0)]
+
+
+class _Conn:
+    conn_id = 'c14'
+
+
+def _client_step(eos_sel, ctx_present, ctx_null, ctx, n, order, ns, moc, ctx_shape):
+    order = small_concrete(order, 6)
+    if not in_part(order):
+        return None
+    # reply as _imethodcall hands it over: list of (name, attrs, value) in any order
+    objs = mklist(small_concrete(n, 4), 100)
+    items = [None, None, None]
+    if eos_sel >= 0:
+        items[0] = ('EndOfSequence', {}, EOS_TEXT[eos_sel])
+    if ctx_present:
+        items[1] = ('EnumerationContext', {}, None if ctx_null else ctx)
+    items[2] = ('IRETURNVALUE', {}, objs)
+    result = []
+    for k in ORDERS[order]:
+        if items[k] is not None:
+            result.append(items[k])
+    eos_sent = eos_sel >= 0 and eos_sel < 4
+    have_ctx = ctx_present and not ctx_null
+    try:
+        got = co.WBEMConnection._get_rslt_params(_Conn(), result, ns)
+    except pywbem.ParseError:
+        TAGS.append('refused')
+        if eos_sel < 0 and not ctx_present:
+            return None
+        if not eos_sent and not have_ctx:
+            return None
+        return 'well-formed open/pull reply refused by the client'
+    if (eos_sel < 0 and not ctx_present) or (not eos_sent and not have_ctx):
+        return 'reply without eos and without context accepted (session could never end)'
+    r_objs, r_eos, r_ctx = got
+    if list(r_objs) != objs:
+        return 'objects of the reply lost or changed by the client'
+    if r_eos is not eos_sent:
+        return 'eos reported differently from what the server sent'
+    if eos_sent:
+        if r_ctx is not None:
+            return 'context still handed out after eos'
+        TAGS.append('eos')
+    else:
+        if not (isinstance(r_ctx, tuple) and len(r_ctx) == 2 and r_ctx[0] == ctx and r_ctx[1] == ns):
+            return 'context tuple is not (server context, namespace)'
+        TAGS.append('open')
+        # the context the client hands out must be accepted by its own validator on the next pull
+        try:
+            co._validate_context(r_ctx)
+        except (TypeError, ValueError):
+            return 'context handed out by the client refused by its own validator'
+    # validators: MaxObjectCount >= 0 or None accepted, negative refused; contexts of wrong shape refused
+    if n != 0:
+        return None
+    try:
+        co._validate_MaxObjectCount_OpenPull(moc)
+        if moc is not None and moc < 0:
+            return 'negative MaxObjectCount accepted'
+    except ValueError:
+        if moc is None or moc >= 0:
+            return 'valid MaxObjectCount refused'
+    bad = [None, (), ('x',), ('x', 'y', 'z'), ['x']][ctx_shape]
+    try:
+        co._validate_context(bad)
+        return 'malformed context accepted'
+    except (TypeError, ValueError):
+        pass
+    return None
+
+
+def client_step(eos_sel: int, ctx_present: bool, ctx_null: bool, ctx: str, n: int, order: int, ns: str,
+                moc: Optional[int], ctx_shape: int) -> Optional[str]:
+    """
+    pre: -1 <= eos_sel < 8 and 0 <= n <= 3 and 0 <= order < 6 and len(ctx) <= 3 and len(ns) <= 3 and 0 <= ctx_shape < 5
+    post: _ is None
+    """
+    return _client_step(eos_sel, ctx_present, ctx_null, ctx, n, order, ns, moc, ctx_shape)
+
+
+def client_step_reach(eos_sel: int, ctx_present: bool, ctx_null: bool, ctx: str, n: int, order: int, ns: str,
+                      moc: Optional[int], ctx_shape: int) -> bool:
+    """
+    pre: -1 <= eos_sel < 8 and 0 <= n <= 3 and 0 <= order < 6 and len(ctx) <= 3 and len(ns) <= 3 and 0 <= ctx_shape < 5
+    post: _
+    """
+    del TAGS[:]
+    r = _client_step(eos_sel, ctx_present, ctx_null, ctx, n, order, ns, moc, ctx_shape)
+    return not ('open' in TAGS and r is None)
